@@ -26,7 +26,11 @@
  *      decision of a later set.
  *
  * A table that register_init refuses ends its case as a trivial one
- * (init-refused): whether a description is accepted is C04's sentence.
+ * (init-refused): whether a description is accepted is C04's sentence.  So does
+ * a case whose intervening call reached an injected callback fault and left a
+ * table that answers UNINITIALISED (latched-after-fault): no statement
+ * mentions driver I/O errors.  Handles that are not registers are built from
+ * the library's handle type (entries.., MAX/2, MAX/2+1, MAX), not literals.
  */
 #include "mc.h"
 #include "regtab.h"
@@ -36,7 +40,7 @@
 #define MAXV 700
 
 #define BOUND_QUICK                                                                                                              \
-    "8 types x LE/BE x mem/cb x constraint configurations x (handles, type mismatches, all 16-bit values, ordered pairs over the " \
+    "8 types x LE/BE x mem/cb x constraint configurations x (handles entries..entries+2, MAX/2, MAX/2+1, MAX of the handle type, type mismatches, all 16-bit values, ordered pairs over the " \
     "closed value set; value objects with 4 fill patterns / 24 previous wider values assigned / 12 fetched with register_get, x "   \
     "entry bounds clean/with the same past) + 49 area geometries (1..4 areas, register in every area, every subset of the others "  \
     "empty) x register area mem/cb x load/skip defaults x 6 styles of the other areas x register between two guards / alone in its area x 6 constraint kinds x init histories {ok; ok,ok} + 6 geometries x all init histories of <= 2 "   \
@@ -505,22 +509,49 @@ one_set(RegisterType rt, const struct rspec *rs, RegisterType vt, uint64_t bits,
     return true;
 }
 
+/* the largest value of the library's handle type: its own macro, else the
+ * maximum of the type */
+#ifdef REGISTER_HANDLE_MAX
+#define HANDLE_TYPE_MAX ((uint64_t)(REGISTER_HANDLE_MAX))
+#else
+#define HANDLE_TYPE_MAX                                                                              \
+    ((RegisterHandle)-1 > 0 ? (uint64_t)(RegisterHandle)-1 : (((uint64_t)1 << (sizeof(RegisterHandle) * 8 - 1)) - 1))
+#endif
+
+/* handles that are not registers of a table with nr registers, built from the
+ * handle TYPE: the first three past the end and MAX/2, MAX/2+1, MAX.  A value
+ * that the type cannot hold, or that converts to a register of the table, is
+ * left out (a literal like 2^31 is register 0 in a 16-bit handle type). */
+static int
+bad_handle_set(int nr, RegisterHandle out[6])
+{
+    const uint64_t want[6] = { (uint64_t)nr, (uint64_t)nr + 1, (uint64_t)nr + 2, HANDLE_TYPE_MAX / 2, HANDLE_TYPE_MAX / 2 + 1, HANDLE_TYPE_MAX };
+    int n = 0;
+    for (int i = 0; i < 6; ++i) {
+        const RegisterHandle h = (RegisterHandle)want[i];
+        if (want[i] > HANDLE_TYPE_MAX || (uint64_t)h != want[i] || (uint64_t)h < (uint64_t)nr)
+            continue;
+        out[n++] = h;
+    }
+    return n;
+}
+
 /* handles that are not registers of the table: first one past the end, ... */
 static bool
 bad_handles(RegisterType rt, RegisterValueU val, const RegisterValue *st)
 {
-    const RegisterHandle nr = (RegisterHandle)tb.s.nr;
-    const RegisterHandle H[] = { nr, nr + 1, nr + 2, 0x7fffffffu, 0x80000000u, 0xffffffffu };
-    for (unsigned hi = 0; hi < sizeof H / sizeof *H; ++hi)
+    RegisterHandle H[6];
+    const int nh = bad_handle_set(tb.s.nr, H);
+    for (int hi = 0; hi < nh; ++hi)
         for (int checked = 0; checked < 2; ++checked) {
             snap();
             const RegisterValue v = mkval(st, rt, ref_bits(rt, val));
             RegisterAccess a = checked ? register_set(&tb.t, H[hi], v) : register_set_unsafe(&tb.t, H[hi], v);
             mc_trans(1);
-            mc_log("handle %u checked=%d -> %s", H[hi], checked, acc(a.code));
+            mc_log("handle %llu checked=%d -> %s", (unsigned long long)H[hi], checked, acc(a.code));
             if (a.code != REG_ACCESS_NOENTRY) {
-                mc_fail("C01/bad-handle-noentry", "%s with handle %u (table has %d registers) returned %s",
-                        checked ? "set" : "set_unsafe", H[hi], tb.s.nr, acc(a.code));
+                mc_fail("C01/bad-handle-noentry", "%s with handle %llu (table has %d registers) returned %s",
+                        checked ? "set" : "set_unsafe", (unsigned long long)H[hi], tb.s.nr, acc(a.code));
                 return false;
             }
             if (!storage_is(NULL, "C01/refused-leaves-storage", "after bad-handle set"))
@@ -1019,18 +1050,25 @@ unwelcome_pattern(RegisterType rt, const struct rspec *rs, uint64_t *out)
     return false;
 }
 
+static bool g_fault_hit; /* an armed callback fault was reached during the intervening call */
+
 static void
 arm(long rd, long wr)
 {
+    g_fault_hit |= tab_fault_reached(&tb); /* a call that arms twice: keep what the first arming saw */
     tb.cb_reads = tb.cb_writes = 0;
     tb.cb_fail_read_at = rd;
     tb.cb_fail_write_at = wr;
 }
 
-static void
+/* returns false when the table went out of service after a callback fault
+ * that the call reached (fail-safe latch; no statement mentions driver I/O
+ * errors): the sets of such a case are not judged */
+static bool
 other_call(int op, RegisterType rt, const struct rspec *rs)
 {
     RegisterAccess a = REG_ACCESS_RESULT_INIT;
+    g_fault_hit = false;
     const uint32_t raddr = rs->addr;
     unsigned char img[8];
     RegisterAtom *buf = mc_exact(8 * sizeof(RegisterAtom));
@@ -1137,10 +1175,17 @@ other_call(int op, RegisterType rt, const struct rspec *rs)
         break;
     }
     mc_trans(1);
-    mc_log("other call %s -> %s (callback reads %ld writes %ld)", OP_NAME[op], acc(a.code), tb.cb_reads, tb.cb_writes);
+    g_fault_hit |= tab_fault_reached(&tb);
+    mc_log("other call %s -> %s (callback reads %ld writes %ld%s)", OP_NAME[op], acc(a.code), tb.cb_reads, tb.cb_writes,
+           g_fault_hit ? ", fault reached" : "");
     tb.cb_fail_read_at = tb.cb_fail_write_at = -1;
     tb.cb_oob = 0;
     free(buf);
+    if (g_fault_hit && tab_out_of_service(&tb)) {
+        mc_log("the table answers UNINITIALISED after the injected I/O error: out of service, sets not judged");
+        return false;
+    }
+    return true;
 }
 
 /* one table: geometry, initialisation history hist[0..nh) (the last step is
@@ -1186,7 +1231,11 @@ geo_case(const char *block, const struct geo *g, unsigned gaps, uint32_t base0, 
         tab_free(&tb);
         return;
     }
-    other_call(op, rt, rs);
+    if (!other_call(op, rt, rs)) {
+        mc_end(false, "latched-after-fault");
+        tab_free(&tb);
+        return;
+    }
     long nacc = 0, nref = 0;
     bool ok = sweep_values(rt, rs, NULL, &nacc, &nref);
     ok = ok && type_mismatches(rt, rs, NULL);
@@ -1278,7 +1327,7 @@ small_tables(void)
             for (int ra = 0; ra < (nreg ? na : 1); ++ra)
                 for (int be = 0; be < 2; ++be)
                     for (int cb = 0; cb < 2; ++cb) {
-                        if (!mc_case("small table with %d registers (in area %d of %d) %s %s: handles 0..3, 2^31, 2^32-1 x set/set_unsafe", nreg,
+                        if (!mc_case("small table with %d registers (in area %d of %d) %s %s: handles 0..3, MAX/2+1, MAX of the handle type x set/set_unsafe", nreg,
                                      ra, na, be ? "BE" : "LE", cb ? "cb" : "mem"))
                             continue;
                         struct tspec s;
@@ -1300,11 +1349,15 @@ small_tables(void)
                             mc_end(false, "init-refused");
                             continue;
                         }
-                        static const RegisterHandle H[] = { 0, 1, 2, 3, 0x80000000u, 0xffffffffu };
+                        /* 0..3 and MAX/2+1, MAX of the handle type */
+                        const uint64_t HW[6] = { 0, 1, 2, 3, HANDLE_TYPE_MAX / 2 + 1, HANDLE_TYPE_MAX };
+                        RegisterHandle H[6];
+                        for (unsigned hi = 0; hi < 6; ++hi)
+                            H[hi] = (RegisterHandle)HW[hi];
                         for (unsigned hi = 0; hi < 6 && ok; ++hi)
                             for (int variant = 0; variant < 2 && ok; ++variant) {
-                                if (H[hi] < (RegisterHandle)nreg)
-                                    continue;
+                                if (HW[hi] < (uint64_t)nreg || (uint64_t)H[hi] != HW[hi])
+                                    continue; /* a register of the table, or not a value of the type */
                                 snap();
                                 RegisterValue v;
                                 memset(&v, 0, sizeof v);
@@ -1312,9 +1365,9 @@ small_tables(void)
                                 v.value.u16 = 0x2222;
                                 RegisterAccess a = variant ? register_set(&tb.t, H[hi], v) : register_set_unsafe(&tb.t, H[hi], v);
                                 mc_trans(1);
-                                mc_log("handle %u %s -> %s", H[hi], variant ? "set" : "set_unsafe", acc(a.code));
+                                mc_log("handle %llu %s -> %s", (unsigned long long)H[hi], variant ? "set" : "set_unsafe", acc(a.code));
                                 if (a.code != REG_ACCESS_NOENTRY) {
-                                    mc_fail("C01/bad-handle-noentry", "%s with handle %u (table has %d registers) returned %s", variant ? "set" : "set_unsafe", H[hi], nreg, acc(a.code));
+                                    mc_fail("C01/bad-handle-noentry", "%s with handle %llu (table has %d registers) returned %s", variant ? "set" : "set_unsafe", (unsigned long long)H[hi], nreg, acc(a.code));
                                     ok = false;
                                 } else
                                     ok = storage_is(NULL, "C01/refused-leaves-storage", "after bad-handle set");
